@@ -6,6 +6,12 @@ ALL = ["C%02d" % i for i in range(1, 21)]
 
 WRAP_NOTE = "Shaped runs are synthetic (generator asserts the shaper output contract); break opportunities come from the segmenter (C06). Negative letter spacing is checked for conservation only (measure not monotone)."
 CHECKS = {
+ "C11": dict(
+   level="exploration",
+   text="Every corpus face over all 0x110000 code points (Lookup vs Iter vs RuneRanges vs the coverage recorded by both footprint paths vs scripts of the mapped runes); synthetic subtables of formats 0/4/6/10/12/13 and the symbol / legacy-Arabic remapping enumerated over boundary segments and compared with a naive interpretation of the subtable; scriptsFromRanges on all short sorted range lists; RuneSet by explicit-state search over Add/Delete histories against map[rune]bool.",
+   note="A rune mapped to glyph 0 may be reported as unmapped or as mapped to 0; only agreement is judged for it. Format 4 segments starting at 0xFFFF with an idRangeOffset follow the library's documented tolerance. Hooks: fontscan.Verif* (coverage, scriptsFromRanges, RuneSet internals).",
+   technique="exhaustive enumeration per font + bounded enumeration of synthetic tables against a reference interpreter (E1); explicit-state search for RuneSet (E2)",
+   design="1/C11", engine="E1 enum"),
  "C15": dict(
    level="exploration",
    text="Complete enumeration of candidate multisets of size 1 and 2 over the 396-aspect grid (9 stretches x 2 styles x 22 weights) crossed with all 690 queries (grid + unset fields), and of size 3 over a sub-grid, through fontSet.retainsBestMatches (verif hook), compared with a direct transcription of CSS Fonts 3 section 5.2.",
